@@ -16,7 +16,8 @@ LEVEL = "fault_enumeration"
 RULE = (
     "1-4 recording destinations, each with a generated failure mask over its call sequence (any subset of call indices, "
     "'every k-th', always, never) and an exception class from a table (several destinations may raise the same class; one "
-    "class has a raising __str__), one of them optionally registered mid-run; x generated logging programs (nested "
+    "class has a raising __str__), one of them optionally registered mid-run, or all of them registered only after part of the program ran (so that "
+    "messages come out of the start-up buffer); x generated logging programs (nested "
     "actions so reports land at different depths). Each destination records what it is offered before raising. Oracle "
     "(a model of the statement, not of the code): every destination is offered exactly the reference sequence (suffix "
     "from its registration), same contents; after each non-report message m follow exactly one eliot:destination_failure "
@@ -89,7 +90,22 @@ def check(case):
     if late is not None:
         cut = case.get("late_at", 1) % (len(program) + 1)
         program.insert(cut, {"op": "hook", "name": "add_late"})
-    run = P.run_program(program, sink="memory", destinations=destinations, opts={"hooks": {"add_late": add_late}})
+    opts = {"hooks": {"add_late": add_late}}
+    buffered = case.get("buffer_first")
+    if buffered is not None and late is None:
+        # part of the program runs before the first add_destinations: those messages come out of the start-up buffer
+        holder = {}
+
+        def add_all(run, node):
+            pend = getattr(run, "pending_destinations", None)
+            if pend:
+                run.pending_destinations = None
+                Logger._destinations.add(*pend)
+
+        program.insert(buffered % (len(program) + 1), {"op": "hook", "name": "add_all"})
+        opts["hooks"]["add_all"] = add_all
+        opts["buffer_first"] = True
+    run = P.run_program(program, sink="memory", destinations=destinations, opts=opts)
     require(not run.errors, "api-raised", lambda: repr(run.errors))
     require(not any(d.runaway for d in dests), "report-on-report", "a failure while delivering an eliot:destination_failure report was itself reported")
     S = run.messages  # what the never-failing observer was offered
@@ -176,6 +192,7 @@ def check(case):
         "fail_on_report": fail_on_report,
         "partial": partial,
         "late": late is not None and reg_at.get(late) is not None,
+        "buffered": case.get("buffer_first") is not None and late is None,
         "messages": len(S),
     }
 
@@ -200,6 +217,8 @@ def classify(case, info):
         labels.append("partial-mask")
     if info["late"]:
         labels.append("late-registration")
+    if info.get("buffered"):
+        labels.append("messages-from-startup-buffer")
     same = len(set(d["exc"] % len(DEST_EXC) for d in case["dests"])) < len(case["dests"])
     if same:
         labels.append("same-exception-class-twice")
@@ -215,9 +234,10 @@ def strategy():
         st.sampled_from([None, None, None, None, 1, 2, 3]),
     )
     return st.builds(
-        lambda dests, late, late_at, pos, p: {"program": p, "dests": dests, "late": late, "late_at": late_at, "observer_pos": pos},
+        lambda dests, late, bf, late_at, pos, p: {"program": p, "dests": dests, "late": late, "buffer_first": bf, "late_at": late_at, "observer_pos": pos},
         st.integers(1, 4).flatmap(lambda n: st.lists(dest, min_size=n, max_size=n)),
-        st.one_of(st.none(), st.integers(0, 3)),
+        st.one_of(st.none(), st.none(), st.integers(0, 3)),
+        st.one_of(st.none(), st.integers(0, 4)),
         st.integers(0, 4),
         st.integers(0, 4),
         P.programs(max_nodes=10, max_depth=4, remote=False, kinds=["with", "finish", "run", "task", "typed", "log_call"]),
